@@ -7,8 +7,8 @@ open PV
 def mkStack (M : List (Key × Nat)) (x : Int × List Frame) : Stack :=
   ⟨x.1, Slice.lit (0 :: x.2.map (idxIn M))⟩
 
-structure Inv (acc : St × Slice Stack) (done : List (Int × List Frame)) : Prop where
-  wf : WF acc.1
+structure Inv (o : Opts) (acc : St × Slice Stack) (done : List (Int × List Frame)) : Prop where
+  wf : WF o acc.1
   snn : acc.2.nonnil = true
   stacks : acc.2.elems = done.map (mkStack acc.1.srcs)
   known : ∀ x ∈ done, ∀ f ∈ x.2, (acc.1.srcs.lookup f.key).isSome = true
@@ -16,9 +16,9 @@ structure Inv (acc : St × Slice Stack) (done : List (Int × List Frame)) : Prop
            s.self = Spec.selfOf acc.2.elems i ∧ s.places = Slice.lit []
   root : ∃ s, acc.1.sources.elems[0]? = some s ∧ s.fullName = Str.ofString "root" ∧ s.inlined = false
 
-theorem WF.pos {st : St} (h : WF st) : 0 < st.sources.elems.length := by rw [h.len]; omega
+theorem WF.pos {o : Opts} {st : St} (h : WF o st) : 0 < st.sources.elems.length := by rw [h.len]; omega
 
-theorem inRange {st : St} (h : WF st) (fs : List Frame)
+theorem inRange {o : Opts} {st : St} (h : WF o st) (fs : List Frame)
     (hk : ∀ f ∈ fs, (st.srcs.lookup f.key).isSome = true) :
     ∀ i ∈ 0 :: fs.map (idxIn st.srcs), i < st.sources.elems.length := by
   intro i hi
@@ -60,8 +60,8 @@ theorem selfOf_append_single (stacks : List Stack) (n : Stack) (i : Nat) :
   · simp [h]
   · simp [h]
 
-theorem WF_modify_self {st : St} (h : WF st) (i : Nat) (v : Int) :
-    WF { st with sources := ⟨st.sources.nonnil,
+theorem WF_modify_self {o : Opts} {st : St} (h : WF o st) (i : Nat) (v : Int) :
+    WF o { st with sources := ⟨st.sources.nonnil,
       st.sources.elems.modify i (fun s => { s with self := s.self + v })⟩ } := by
   refine ⟨by simp [List.length_modify, h.len], h.nn, ?_, ?_, h.inj⟩
   · intro k j hk; simpa [List.length_modify] using h.rng k j hk
@@ -76,11 +76,11 @@ theorem slice_eq_lit {α} (s : Slice α) (l : List α) (hn : s.nonnil = true) (h
     s = Slice.lit l := by
   cases s; simp_all [Slice.lit]
 
-theorem sampleStep_spec (acc : St × Slice Stack) (done : List (Int × List Frame))
-    (x : Int × List Frame) (h : Inv acc done) :
-    ∃ acc', sampleStep acc x = .ok acc' ∧ Inv acc' (done ++ [x]) := by
-  obtain ⟨w1, e1, el, nn, kn⟩ := pushFrames_spec x.2 acc.1 (Slice.lit [0]) h.wf
-  generalize hr : pushFrames acc.1 (Slice.lit [0]) x.2 = r at w1 e1 el nn kn
+theorem sampleStep_spec (o : Opts) (acc : St × Slice Stack) (done : List (Int × List Frame))
+    (x : Int × List Frame) (h : Inv o acc done) :
+    ∃ acc', sampleStep o acc x = .ok acc' ∧ Inv o acc' (done ++ [x]) := by
+  obtain ⟨w1, e1, el, nn, kn⟩ := pushFrames_spec o x.2 acc.1 (Slice.lit [0]) h.wf
+  generalize hr : pushFrames o acc.1 (Slice.lit [0]) x.2 = r at w1 e1 el nn kn
   have nn' : r.2.nonnil = true := nn rfl
   have el' : r.2.elems = 0 :: x.2.map (idxIn r.1.srcs) := by simpa [Slice.lit] using el
   have hr2 : r.2 = Slice.lit (0 :: x.2.map (idxIn r.1.srcs)) := slice_eq_lit _ _ nn' el'
@@ -152,18 +152,18 @@ theorem sampleStep_spec (acc : St × Slice Stack) (done : List (Int × List Fram
     · exact ⟨{ s with self := s.self + x.1 }, by rw [if_pos e], hn⟩
     · exact ⟨s, by rw [if_neg e], hn⟩
 
-theorem foldO_sampleStep (rest : List (Int × List Frame)) :
-    ∀ (acc : St × Slice Stack) (done : List (Int × List Frame)), Inv acc done →
-    ∃ acc', foldO sampleStep acc rest = .ok acc' ∧ Inv acc' (done ++ rest) := by
+theorem foldO_sampleStep (o : Opts) (rest : List (Int × List Frame)) :
+    ∀ (acc : St × Slice Stack) (done : List (Int × List Frame)), Inv o acc done →
+    ∃ acc', foldO (sampleStep o) acc rest = .ok acc' ∧ Inv o acc' (done ++ rest) := by
   induction rest with
   | nil => intro acc done h; exact ⟨acc, rfl, by simpa using h⟩
   | cons x r ih =>
     intro acc done h
-    obtain ⟨acc1, h1, i1⟩ := sampleStep_spec acc done x h
+    obtain ⟨acc1, h1, i1⟩ := sampleStep_spec o acc done x h
     obtain ⟨acc2, h2, i2⟩ := ih acc1 (done ++ [x]) i1
     exact ⟨acc2, by simp [foldO, h1, h2, bind, Outcome.bind], by simpa using i2⟩
 
-theorem Inv_init : Inv (St.init, Slice.lit []) [] := by
+theorem Inv_init (o : Opts) : Inv o (St.init, Slice.lit []) [] := by
   refine ⟨⟨rfl, rfl, ?_, ?_, ?_⟩, rfl, rfl, by simp, ?_, ⟨rootSource, rfl, rfl, rfl⟩⟩
   · intro k i h; simp [St.init] at h
   · intro k i h; simp [St.init] at h
@@ -176,9 +176,9 @@ theorem Inv_init : Inv (St.init, Slice.lit []) [] := by
       simp [rootSource, Spec.selfOf, Slice.lit]
     | succ n => simp [St.init, Slice.lit] at hs
 
-theorem makeInitialStacks_spec (rs : List (Int × List Frame)) :
-    ∃ acc, makeInitialStacks rs = .ok acc ∧ Inv acc rs := by
-  obtain ⟨acc, h, i⟩ := foldO_sampleStep rs _ [] Inv_init
+theorem makeInitialStacks_spec (o : Opts) (rs : List (Int × List Frame)) :
+    ∃ acc, makeInitialStacks o rs = .ok acc ∧ Inv o acc rs := by
+  obtain ⟨acc, h, i⟩ := foldO_sampleStep o rs _ [] (Inv_init o)
   exact ⟨acc, h, by simpa using i⟩
 
 end PV.Stacks
